@@ -197,6 +197,10 @@ class Report:
                 return False
         self.sig_counts[sig] = self.sig_counts.get(sig, 0) + 1
         if sig in self._seen_sigs:
+            hl = lambda r: len(r.get("history") or []) if isinstance(r, dict) else 0
+            for i, (s0, r0) in enumerate(self.violations):
+                if json.dumps(s0, sort_keys=True) == sig and isinstance(replay, dict) and hl(jsonable(replay)) < hl(r0):
+                    self.violations[i] = (s0, jsonable(replay))
             return True
         self._seen_sigs.add(sig)
         self.violations.append((jsonable(signature), jsonable(replay)))
